@@ -79,8 +79,16 @@ def inside_blocks(bq, head, q):
 def run(ctx):
     m = Model(ctx)
     fns = agent_fns(ctx)
-    updates = [f for f in fns if f.name == "update" and (f.impl_trait or "").split("::")[-1] in ("Agent", "MarketAgent")]
-    ctx.check(len(updates) == 6, "anchor", "updates", "-", "6 built-in agent update impls (random/noise/momentum x single/multi-asset)", "found %d update impls" % len(updates))
+    BUILTIN = ("RandomAgents", "RandomMarketAgents", "NoiseAgent", "NoiseMarketAgent", "MomentumAgent", "MomentumMarketAgent")
+    all_updates = [f for f in fns if f.name == "update" and (f.impl_trait or "").split("::")[-1] in ("Agent", "MarketAgent")]
+    # the built-in agents are the six named types; impls for other Self types (generic containers such as Vec<A>, further agent
+    # types) are not what the property is about and are listed only
+    updates = [f for f in all_updates if (f.impl_adt or "").split("::")[-1].split("<")[0] in BUILTIN]
+    others = sorted({(f.impl_adt or "?") for f in all_updates if f not in updates})
+    if others:
+        ctx.note("Agent / MarketAgent impls beyond the six built-in agent types (not judged): %s" % others)
+    ctx.check(len(updates) == 6 and {(f.impl_adt or "").split("::")[-1].split("<")[0] for f in updates} == set(BUILTIN), "anchor", "updates", "-",
+              "6 built-in agent update impls (random/noise/momentum x single/multi-asset)", "found %d update impls of the built-in agent types" % len(updates))
     helpers = {n: ctx.prog.free_fn("bourse_de", n) for n in (
         "round_price_up", "round_price_down", "place_buy_limit_order", "place_sell_limit_order", "place_buy_limit_order_market",
         "place_sell_limit_order_market", "cancel_live_orders", "cancel_live_orders_market")}
